@@ -119,24 +119,43 @@ async fn run(name: &str) -> Result<(), String> {
                 let mut built_add = IgnoreFilter::empty(&root);
                 for f in &files { built_add.add_file(f).await.map_err(|e| e.to_string())?; }
                 // independent evaluation
-                let reference = |p: &Path, is_dir: bool| -> bool {
-                    let mut anc: Vec<&(PathBuf, String)> = listed.iter().filter(|(d, _)| p.starts_with(d) && p != d.as_path()).collect();
-                    anc.sort_by_key(|(d, _)| std::cmp::Reverse(d.components().count()));
-                    for (d, content) in anc {
-                        let mut b = GitignoreBuilder::new(d);
-                        for line in content.lines() { if line.is_empty() || line.starts_with('#') { continue; } b.add_line(None, line).unwrap(); }
-                        let gi = b.build().unwrap();
+                // independent evaluation: one matcher per ignore file (the ignore crate's own), asked nearest directory first; the first that says something decides
+                // tri-state: 1 ignored, -1 re-admitted by a negated pattern, 0 nothing said
+                let mut gis: Vec<(PathBuf, ignore::gitignore::Gitignore)> = listed.iter().map(|(d, content)| {
+                    let mut b = GitignoreBuilder::new(d);
+                    for line in content.lines() { if line.is_empty() || line.starts_with('#') { continue; } b.add_line(None, line).unwrap(); }
+                    (d.clone(), b.build().unwrap()) }).collect();
+                gis.sort_by_key(|(d, _)| std::cmp::Reverse(d.components().count()));
+                let reference3 = |p: &Path, is_dir: bool| -> i8 {
+                    for (d, gi) in gis.iter().filter(|(d, _)| p.starts_with(d) && p != d.as_path()) {
+                        let _ = d;
                         let m = gi.matched_path_or_any_parents(p, is_dir);
-                        if m.is_ignore() { return true; }
-                        if m.is_whitelist() { return false; }
+                        if m.is_ignore() { return 1; }
+                        if m.is_whitelist() { return -1; }
                     }
-                    false
+                    0
                 };
+                let reference = |p: &Path, is_dir: bool| -> bool { reference3(p, is_dir) == 1 };
                 let mut probes: Vec<(PathBuf, bool)> = vec![];
                 for d in dirs { for n in names { probes.push((root.join(d).join(n), false)); } probes.push((root.join(d).join("gen"), true)); }
                 // directories themselves, unless an ignore file is stored in that very directory (left unspecified by the property)
                 for d in dirs { let p = root.join(d); if *d != *"" && !listed.iter().any(|(ld, _)| *ld == p) { probes.push((p, true)); } }
                 probes.push((root.parent().unwrap().join("vx-outside-a.rs"), false));
+                // two-path events through the real IgnoreFilterer: left-to-right fold (ignored rejects, re-admitted passes, nothing said keeps the verdict)
+                {
+                    let fe = IgnoreFilterer(built_new.clone());
+                    let files: Vec<&PathBuf> = probes.iter().filter(|(_, d)| !*d).map(|(p, _)| p).step_by(3).take(14).collect();
+                    let r3: Vec<i8> = files.iter().map(|p| reference3(p, false)).collect();
+                    for (ia, a) in files.iter().enumerate() { for (ib, b) in files.iter().enumerate() {
+                        let mut want = true;
+                        for v in [r3[ia], r3[ib]] { match v { 1 => want = false, -1 => want = true, _ => {} } }
+                        let ev = Event { tags: vec![Tag::Path { path: (*a).clone(), file_type: Some(FileType::File) }, Tag::Path { path: (*b).clone(), file_type: Some(FileType::File) }], metadata: Default::default() };
+                        let got = fe.check_event(&ev, Priority::Normal).unwrap();
+                        checked += 1;
+                        if got != want { return Err(format!("ignore files {:?}: the event with paths [{}, {}] {} but folding the per-path verdicts ({}, {}) from left to right says it {}", listed.iter().map(|(d, c)| (d.strip_prefix(&root).unwrap().join(".gitignore"), c.as_str())).collect::<Vec<_>>(),
+                            a.strip_prefix(&root).unwrap_or(a).display(), b.strip_prefix(&root).unwrap_or(b).display(), if got { "passes" } else { "is rejected" }, reference3(a, false), reference3(b, false), if want { "passes" } else { "is rejected" })); }
+                    }}
+                }
                 for (p, is_dir) in probes {
                     let want = reference(&p, is_dir);
                     for (how, f) in [("IgnoreFilter::new", &built_new), ("IgnoreFilter::new (files listed deepest first)", &built_rev), ("empty + add_file", &built_add)] {
